@@ -63,6 +63,9 @@ def run_for_property(prop, seed=0, only=None, timeout=900):
                 except subprocess.TimeoutExpired:
                     out, st = "timeout", "TIMEOUT"
                 fails = re.findall(r"Failed Checks: (.*)", out)
+                if st == "FAILED" and fails and all("unwinding assertion" in f_ for f_ in fails):
+                    # the bound was too small for this tree (e.g. loop numbering changed after an edit): nothing was refuted
+                    st = "INCONCLUSIVE"
                 results.append(dict(harness=h["name"], file=ent["target_file"], kind=h.get("kind", "bounded"), bound=h.get("bound"), status=st,
                                     wall_s=round(time.time() - t0, 1), detail="; ".join(fails[:4]), output=out[-2500:] if st != "SUCCESSFUL" else "",
                                     backend="kani 0.68 / cbmc", counts_as_violation=(st == "FAILED"), what=h.get("what", "")))
